@@ -162,10 +162,15 @@ template <typename PH> struct Prog {
   }
 
   // ------------------------------------------------------------ mutators
-  Obj& partner(Obj& o) {   // an object of the same dimension (possibly o itself)
-    std::vector<size_t> cand; for (size_t i = 0; i < pool.size(); ++i) if (pool[i].n == o.n) cand.push_back(i);
+  // An object of the same dimension, never the receiver itself (aliased calls x.op(x) are C13's
+  // subject); when there is none, a copy of the receiver is appended to the pool.
+  Obj& partner(Obj& o) {
+    size_t self = &o - &pool[0];
+    std::vector<size_t> cand; for (size_t i = 0; i < pool.size(); ++i) if (i != self && pool[i].n == o.n) cand.push_back(i);
+    if (cand.empty()) { size_t i = pick_spare(self); Obj& src = pool[self]; pool[i].ph = src.ph; pool[i].m = src.m; pool[i].n = src.n; c.log << "  (obj" << i << " := copy of obj" << self << ")\n"; return pool[i]; }
     return pool[cand[t.range(0, (long) cand.size() - 1)]];
   }
+  size_t pick_spare(size_t self) { return self == 0 ? 1 : 0; }
   Generator gen_generator(size_t n, int& kind, Vec& v, std::string& txt) {
     if (n == 0) kind = 2;
     LE e(n); for (size_t j = 0; j < n; ++j) e.a[j] = t.range(-3, 3);
@@ -363,7 +368,7 @@ template <typename PH> struct Prog {
       check_smallest(o, "fold_space_dimensions", S); break; }
     case 17: { // concatenate_assign
       Obj& q = pool[t.range(0, (long) pool.size() - 1)];
-      if (n + q.n > 6) { mutate_image(o); break; }
+      if (n + q.n > 6 || &q == &o) { mutate_image(o); break; }
       c.log << "  concatenate_assign obj" << (&q - &pool[0]) << "\n"; Sys e = ref::concatenate(o.m, q.m); Sys qm = q.m; size_t qn = q.n; bool self = &q == &o;
       o.ph.concatenate_assign(q.ph); o.n = n + qn; settle(o, "concatenate_assign", &e); if (!self) arg_unchanged(q, qm, "concatenate_assign"); break; }
     case 18: { // poly_hull_assign_if_exact
@@ -454,15 +459,29 @@ template <typename PH> struct Prog {
       bool pe = ref::is_empty(pm), qe = ref::is_empty(qm);
       if (pe || qe) c.check(id + ".empty", ref::is_empty(sr), [&] { return "an operand is empty but the result is " + show_sys(sr); });
       else {
-        // closure of S by lifting: x = p + y, (y, l) in the closed homogenisation cone of Q, l >= 0
-        size_t N = 3 * n + 1; Sys L(N);   // x (n), p (n), y (n), l
-        Sys cp = ref::closure(pm);
-        for (size_t i = 0; i < cp.cs.size(); ++i) { Con r; r.a.assign(N, Q(0)); for (size_t j = 0; j < n; ++j) r.a[n + j] = cp.cs[i].a[j]; r.b = cp.cs[i].b; r.r = cp.cs[i].r; L.add(r); }
-        for (size_t i = 0; i < qm.cs.size(); ++i) { Con r; r.a.assign(N, Q(0)); for (size_t j = 0; j < n; ++j) r.a[2 * n + j] = qm.cs[i].a[j]; r.a[3 * n] = qm.cs[i].b; r.b = 0; r.r = qm.cs[i].r == ref::GT ? ref::GE : qm.cs[i].r; L.add(r); }
-        { Con r; r.a.assign(N, Q(0)); r.a[3 * n] = 1; r.b = 0; r.r = ref::GE; L.add(r); }
-        for (size_t j = 0; j < n; ++j) { Con e; e.a.assign(N, Q(0)); e.a[j] = 1; e.a[n + j] = -1; e.a[2 * n + j] = -1; e.b = 0; e.r = ref::EQ; L.add(e); }
-        Sys clS = ref::closure(ref::project_last(L, 2 * n + 1));
-        c.check(id + ".closure_equal", ref::equal(ref::closure(sr), clS), [&] { return "closure of the result " + show_sys(sr) + " differs from the closure of {p + l q}: " + show_sys(clS) + "  P=" + show_sys(pm) + " Q=" + show_sys(qm); });
+        // (a) every constraint of R holds on cl(S): on P, and its linear part is non-negative (zero for equalities) on Q
+        Sys cq = ref::closure(qm), cpm = ref::closure(pm);
+        for (size_t k = 0; k < sr.cs.size(); ++k) {
+          Con w(sr.cs[k].a, sr.cs[k].b, sr.cs[k].r == ref::EQ ? ref::EQ : ref::GE);
+          Con dir(sr.cs[k].a, Q(0), w.r);
+          c.check(id + ".sound", ref::included_in_con(cpm, w) && ref::included_in_con(cq, dir), [&] { return "constraint " + ref::show(sr.cs[k]) + " of the result cuts points of {p + l q}  P=" + show_sys(pm) + " Q=" + show_sys(qm); });
+        }
+        // (b) closure-minimality: every generator of R lies in cl(S) = cl(P) + closed homogenisation cone of Q
+        {
+          const Generator_System& gs = R.minimized_generators();
+          for (Generator_System::const_iterator g = gs.begin(); g != gs.end(); ++g) {
+            Vec v = gen_vec(*g, n); bool pt = g->is_point() || g->is_closure_point();
+            for (int rep = 0; rep < (g->is_line() ? 2 : 1); ++rep) {
+              if (rep == 1) for (size_t j = 0; j < n; ++j) v[j] = -v[j];
+              size_t N = 2 * n + 1; Sys L(N);   // p (n), y (n), t
+              for (size_t i = 0; i < cpm.cs.size(); ++i) { Con r; r.a.assign(N, Q(0)); for (size_t j = 0; j < n; ++j) r.a[j] = cpm.cs[i].a[j]; r.b = pt ? cpm.cs[i].b : Q(0); r.r = cpm.cs[i].r; L.add(r); }
+              for (size_t i = 0; i < cq.cs.size(); ++i) { Con r; r.a.assign(N, Q(0)); for (size_t j = 0; j < n; ++j) r.a[n + j] = cq.cs[i].a[j]; r.a[2 * n] = cq.cs[i].b; r.b = 0; r.r = cq.cs[i].r; L.add(r); }
+              { Con r; r.a.assign(N, Q(0)); r.a[2 * n] = 1; r.b = 0; r.r = ref::GE; L.add(r); }
+              for (size_t j = 0; j < n; ++j) { Con e; e.a.assign(N, Q(0)); e.a[j] = 1; e.a[n + j] = 1; e.b = -v[j]; e.r = ref::EQ; L.add(e); }
+              c.check(id + ".closure_minimal", !ref::is_empty(L), [&] { std::ostringstream o; o << "generator " << *g << " of the result lies outside the closure of {p + l q}; result " << show_sys(sr) << "  P=" << show_sys(pm) << " Q=" << show_sys(qm); return o.str(); });
+            }
+          }
+        }
         if (nnc) {
           // soundness of the strict constraints of R
           for (size_t k = 0; k < sr.cs.size(); ++k) if (sr.cs[k].r == ref::GT)
@@ -662,7 +681,7 @@ template <typename PH> struct Prog {
     size_t n = (size_t) t.weighted({5, 25, 40, 25, 5});   // dimension 0..4
     wit.resize(8); for (size_t j = 0; j < 8; ++j) wit[j] = t.range(-2, 2);
     c.log << "program " << tn() << " dim " << n << " mode " << (MODE_C01 ? "C01" : "C02") << "\n";
-    size_t k = (size_t) t.range(1, 3);
+    size_t k = (size_t) t.range(2, 3); pool.reserve(4);
     for (size_t i = 0; i < k; ++i) { c.log << " obj" << i << ":\n"; make_obj(n); note_state(pool.back()); }
     int steps = 0;
     while (!t.exhausted() && steps < 14) {
